@@ -178,3 +178,69 @@ def replay_replicas(rp, exe, work, M):
         return 1
     print("not reproduced on the current tree")
     return 0
+
+
+# ---------------------------------------------------------------------------------------------- C17 authority
+def run_authority(pid, tier, seed, work, t0, M):
+    P = M.PROPS[pid]
+    exe = M.build_harness(work)
+    # 1. the running application reports its registered message types
+    tj = os.path.join(work, "types.json")
+    rc, out, dt = M.run([exe, "authority", "-list", tj], 600)
+    if rc != 0:
+        raise M.Infra("authority -list failed:\n" + out[-2000:])
+    types = json.load(open(tj))
+    # 2. TLC enumerates the required (type, sender class, path) combinations
+    cfg = open(os.path.join(V, "spec/mc/MC_authority.cfg")).read().replace('"types.json"', '"%s"' % tj)
+    rc, out, dt = M.tlc(work, "mc", "MC_authority", cfg, "big", 2, 600)
+    if "No error has been found" not in out:
+        raise M.Infra("MC_authority failed:\n" + out[-2000:])
+    mstates, mtrans = M.tlc_counts(out)
+    cases = [json.loads(json.loads(l[len('<<"CASE", '):-2])) for l in out.splitlines() if l.startswith('<<"CASE", ')]
+    cf = os.path.join(work, "auth-cases.ndjson")
+    with open(cf, "w") as f:
+        for c in cases:
+            f.write(json.dumps(c) + "\n")
+    # 3. the harness delivers them to the real application
+    tf = os.path.join(work, "auth-trace.ndjson")
+    rc, out, dt = M.run([exe, "authority", "-cases", cf, "-out", tf, "-seed", str(seed)], 1800)
+    if rc != 0:
+        raise M.Infra("authority run failed:\n" + out[-3000:])
+    st = {}
+    for line in out.splitlines():
+        if line.startswith("STATS "):
+            st = json.loads(line[6:])
+    M.log("authority: %d registered elys message types (%d governance-only), %d cases delivered: %s" % (
+        len(types), sum(1 for t in types if t["class"] == "authority"), len(cases), st))
+    # 4. TLC validates the deliveries + completeness; owner scope on ordinary traces
+    results = M.validate_all(work, [tf], "TraceAuth")
+    scheds = {}
+    for fam, (n, depth) in P["walks"][tier].items():
+        ws = M.gen_walks(exe, work, fam, n, depth, seed)
+        tr2, stats = M.replay_on_impl(exe, work, ws, seed, tag="w-" + fam)
+        results += M.validate_all(work, tr2, "Trace")
+        for s in ws:
+            scheds[s["id"]] = s
+    cov = {"model_states": mstates, "model_transitions": mtrans, "registered_elys_message_types": len(types),
+           "governance_only_types": sum(1 for t in types if t["class"] == "authority"), "cases_enumerated_by_tlc": len(cases),
+           "accepted_from_governance": st.get("accepted_gov", 0), "pure_trace_files": 1,
+           "samples": [cases[0], M.trace_line(tf, 2), M.trace_line(tf, 3)]}
+    return M.decide(pid, tier, seed, results, scheds, t0, cov, P.get("assumptions", []))
+
+
+def replay_authority(rp, exe, work, M):
+    ev = rp["event"]["ev"]
+    cf = os.path.join(work, "case.ndjson")
+    with open(cf, "w") as f:
+        f.write(json.dumps({"type": ev["name"], "sender": ev["args"]["senderClass"], "via": ev["args"]["via"]}) + "\n")
+    tf = os.path.join(work, "auth-trace.ndjson")
+    rc, out, dt = M.run([exe, "authority", "-cases", cf, "-out", tf, "-seed", str(rp["seed"])], 600)
+    res = M.validate_all(work, [tf], "TraceAuth")
+    fails = [f for r in res for f in r["fails"] if f["prop"] == rp["property"] and f["check"] == rp["failed_check"]]
+    for f in fails:
+        print("REPLAY-FAIL property=%s check=%s event=%s" % (rp["property"], f["check"], f.get("event", "")))
+    if fails:
+        print("reproduced: %s" % rp["failed_check"])
+        return 1
+    print("not reproduced on the current tree")
+    return 0
